@@ -63,3 +63,17 @@ Proof.
       specialize (H ltac:(lia)). rewrite tails_nth in H by (fold n; lia).
       unfold oltb in H. cbn in H. apply negb_false_iff, Z.leb_le in H. unfold tailZ in Hlast. lia.
 Qed.
+
+Lemma dispatch_matvec_spec have use d : (dispatch_matvec have use d = BCpp 0 <-> have = true /\ use = true /\ (2 <= d)%nat) /\
+  (dispatch_matvec have use d <> BCpp 0 -> dispatch_matvec have use d = BPython) /\ dispatch_matvec have use 1%nat = BPython.
+Proof.
+  unfold dispatch_matvec. split; [|split].
+  - destruct have, use; cbn [andb]; try (split; [discriminate|intros [H1 [H2 _]]; discriminate]).
+    destruct (Nat.ltb_spec 1 d) as [H|H]; split.
+    + intros _. repeat split; exact H.
+    + intros _. reflexivity.
+    + discriminate.
+    + intros [_ [_ H2]]. exfalso. apply (Nat.lt_irrefl 1). apply Nat.lt_le_trans with d; [exact H2|exact H].
+  - destruct (have && use && Nat.ltb 1 d); [intros H; exfalso; apply H; reflexivity|reflexivity].
+  - rewrite andb_false_r. reflexivity.
+Qed.
